@@ -147,7 +147,12 @@ func (w *DepWalker) Translate(sub map[string]bool, call ssa.CallInstruction) {
 }
 
 // sameAsRecv: v is the root's receiver, possibly through embedded pointer fields or closure capture.
-func (w *DepWalker) sameAsRecv(v ssa.Value) bool {
+func (w *DepWalker) sameAsRecv(v ssa.Value) bool { return w.sameAsRecvD(v, 0) }
+
+func (w *DepWalker) sameAsRecvD(v ssa.Value, d int) bool {
+	if d > 3 || len(w.Root.Params) == 0 {
+		return false
+	}
 	recv := ssa.Value(w.Root.Params[0])
 	for i := 0; i < 20; i++ {
 		v = Strip(v)
@@ -160,6 +165,27 @@ func (w *DepWalker) sameAsRecv(v ssa.Value) bool {
 				continue
 			}
 			return false
+		}
+		// the receiver (or a parameter) of a private helper: what its call sites pass, when they agree
+		if p, ok := v.(*ssa.Parameter); ok && p.Parent() != w.Root && p.Parent().Parent() == nil {
+			h := p.Parent()
+			idx := -1
+			for k, q := range h.Params {
+				if q == p {
+					idx = k
+				}
+			}
+			sites := helperCallSites(h)
+			if idx < 0 || len(sites) == 0 {
+				return false
+			}
+			all := true
+			for _, cs := range sites {
+				if idx >= len(cs.Common().Args) || cs.Parent() == h || !w.sameAsRecvD(cs.Common().Args[idx], d+1) {
+					all = false
+				}
+			}
+			return all
 		}
 		if fr := AsFieldLoad(v); fr != nil && isEmbedded(fr) {
 			v = fr.Base
@@ -447,6 +473,14 @@ func (w *DepWalker) recvField(fr *FieldRef) bool {
 		if fv, ok := b.(*ssa.FreeVar); ok {
 			if bb := FreeVarBinding(fv); bb != nil {
 				b = bb
+				continue
+			}
+			return false
+		}
+		if p, ok := b.(*ssa.Parameter); ok && p.Parent() != w.Root {
+			// the receiver of a private helper method every call site of which passes the root's receiver
+			if w.sameAsRecvD(p, 0) {
+				b = recv
 				continue
 			}
 			return false
